@@ -119,8 +119,10 @@ class MultimapResolver:
             all_genes.update(assignment.genes)
             all_isoforms.update(assignment.isoforms)
 
-        change_transcript_assignment_type = len(all_isoforms) > 1
-        change_gene_assignment_type = len(all_genes) > 1
+        # a tie needs several alignments: a single retained alignment that names several isoforms by itself keeps
+        # its own type and is no multimapper because of the alignments that lost
+        change_transcript_assignment_type = len(assignments_to_keep) > 1 and len(all_isoforms) > 1
+        change_gene_assignment_type = len(assignments_to_keep) > 1 and len(all_genes) > 1
 
         assignments_to_keep_set = set(assignments_to_keep)
         for i in range(len(assignment_list)):
